@@ -46,6 +46,37 @@ def _has_sym(a):
     return False
 
 
+def _tofloat(a):
+    if isinstance(a, _np.ndarray) and a.dtype == object:
+        return a.astype(float)
+    if isinstance(a, (list, tuple)):
+        return type(a)(_tofloat(x) for x in a)
+    return a
+
+
+def _toobj(r):
+    if isinstance(r, _np.ndarray) and r.dtype.kind == "f":
+        return r.astype(object)
+    if isinstance(r, tuple):
+        return tuple(_toobj(x) for x in r)
+    return r
+
+
+def concrete_first(npf):
+    """when no argument holds a symbolic value, defer to numpy's own implementation (on float casts)"""
+    def deco(f):
+        def g(*a, **k):
+            if not any(_has_sym(x) for x in a) and not any(_has_sym(x) for x in k.values()):
+                try:
+                    return _toobj(npf(*[_tofloat(x) for x in a], **{kk: _tofloat(v) for kk, v in k.items()}))
+                except (TypeError, ValueError):
+                    pass
+            return f(*a, **k)
+        g.__name__ = getattr(f, "__name__", "shim")
+        return g
+    return deco
+
+
 def zeros(shape, dtype=None, order="C", **kw):
     if _fl(dtype):
         a = _np.empty(shape, dtype=object, order=order)
@@ -324,6 +355,7 @@ def isnan(a):
     return _np.isnan(a)
 
 
+@concrete_first(_np.linalg.norm)
 def _norm(x, ord=None, axis=None, **k):
     xa = _np.asarray(x)
     if xa.dtype == object and _has_sym(xa):
@@ -339,6 +371,12 @@ def _norm(x, ord=None, axis=None, **k):
 
 
 def _det(A):
+    if not _has_sym(A):
+        return float(_np.linalg.det(_np.asarray(A, dtype=float)))
+    return _det_sym(A)
+
+
+def _det_sym(A):
     A = _np.asarray(A)
     if A.dtype != object:
         return _np.linalg.det(A)
@@ -350,7 +388,7 @@ def _det(A):
     r = 0.0
     for j in range(n):
         minor = _np.delete(_np.delete(A, 0, axis=0), j, axis=1)
-        r = r + ((-1) ** j) * A[0, j] * _det(minor)
+        r = r + ((-1) ** j) * A[0, j] * _det_sym(minor)
     return r
 
 
@@ -359,7 +397,7 @@ def _inv(A):
     if A.dtype != object or not _has_sym(A):
         return _np.linalg.inv(A.astype(float)).astype(object) if A.dtype == object else _np.linalg.inv(A)
     n = A.shape[0]
-    d = _det(A)
+    d = _det_sym(A)
     out = _np.empty((n, n), dtype=object)
     if n == 1:
         out[0, 0] = 1 / A[0, 0]
@@ -367,7 +405,7 @@ def _inv(A):
     for i in range(n):
         for j in range(n):
             minor = _np.delete(_np.delete(A, i, axis=0), j, axis=1)
-            out[j, i] = ((-1) ** (i + j)) * _det(minor) / d
+            out[j, i] = ((-1) ** (i + j)) * _det_sym(minor) / d
     return out
 
 
@@ -405,6 +443,7 @@ def min_(a, axis=None, **k):
     return _np.min(a, axis=axis, **k)
 
 
+@concrete_first(_np.argmax)
 def argmax(a, axis=None, **k):
     aa = _np.asarray(a)
     if aa.dtype == object and _has_sym(aa):
@@ -419,6 +458,7 @@ def argmax(a, axis=None, **k):
     return _np.argmax(a, axis=axis, **k)
 
 
+@concrete_first(_np.cross)
 def cross(a, b, **k):
     a, b = _np.asarray(a), _np.asarray(b)
     if a.dtype == object or b.dtype == object:
